@@ -336,6 +336,7 @@ _Bool vf_fun_call(struct %(FUN)s *f, struct %(SPO)s *arg)
 
 # std::find_if over objectMap with the two lowered closures: first position whose predicate holds
 FIND_IF = r'''
+#ifdef VF_HAVE_%(LAM)s__op_call_T_std_pair_std_string_std_shared_ptr_vf_obj
 _Bool %(LAM)s__op_call_T_std_pair_std_string_std_shared_ptr_vf_obj(struct %(LAM)s *vf_c, struct %(PSO)s *val);
 void %(NAME)s(struct %(OIT)s *ret, struct %(OIT)s *first, struct %(OIT)s *last, struct %(LAM)s *pred)
 {
@@ -352,6 +353,7 @@ void %(NAME)s(struct %(OIT)s *ret, struct %(OIT)s *first, struct %(OIT)s *last, 
     ret->idx = ret->idx + 1;
   }
 }
+#endif
 '''
 GHOST += FIND_IF % dict(D, NAME='vf_find_if_1', LAM=FIND1, EXTRA='')
 GHOST += FIND_IF % dict(D, NAME='vf_find_if_2', LAM=FIND2, EXTRA=', vf_SOH->typeMap.other, vf_SOH->typeMap.felem.second.scratch')
@@ -453,8 +455,8 @@ FN = {
     r'SearchableObjectHolder::findObject::lambda0::op_call': [
         # the two predicate closures of findObject(pred) / findObject(pred, type): verified as part of
         # their callers (inlined through the find_if model); the typed one scans the tag vector
-        dict(inline=True, where=lambda fm: '_int__lambda0' not in fm['cname']),
-        dict(inline=True, where=lambda fm: '_int__lambda0' in fm['cname'],
+        dict(inline=True, optional=True, where=lambda fm: '_int__lambda0' not in fm['cname']),
+        dict(inline=True, optional=True, where=lambda fm: '_int__lambda0' in fm['cname'],
              loops={0: dict(invariant=[('C17', 'vf_begin0.v == vf_range0 && vf_end0.v == vf_range0 && vf_end0.idx == vf_range0->size && vf_begin0.idx <= vf_range0->size && '
                                                '(vf_range0 == &vf_c->cap1->typeMap.felem.second || vf_range0 == &vf_c->cap1->typeMap.other.second) && '
                                                '(!vf_range0->has_t || vf_range0->tpos < vf_range0->size) && ((vf_range0->has_t && vf_c->cap2 == vf_ft) ==> vf_begin0.idx <= vf_range0->tpos) && '
